@@ -237,12 +237,27 @@ HIST_REDUCED = [['clouds_pressure', 1e1], ['clouds_pressure', 1e5], ['flat_topP'
                 ['atm_min_pressure', 1e-3]]
 
 
-def hist_build(case):
+def hist_build(case, net=None):
     fx.reset_caches()
     install()
+    flat = {'flat_mix_ratio': 1e-31}
+    lee = {'lee_mie_mix_ratio': 1e-12, 'lee_mie_radius': 0.05, 'lee_mie_q': 40}
+    if case.get('inv'):
+        # both hazes are constructed with their bounds the wrong way round (top below bottom), then single bounds move
+        flat.update(flat_topP=2e4, flat_bottomP=5e1)
+        lee.update(lee_mie_topP=2e4, lee_mie_bottomP=5e1)
+    cloud = 1e2
+    if net is not None:
+        # net settings of the cloud / haze parameters go into the constructors
+        for k_ in list(net):
+            if k_.startswith('flat_'):
+                flat[k_] = net.pop(k_)
+            elif k_.startswith('lee_mie_'):
+                lee[k_] = net.pop(k_)
+            elif k_ == 'clouds_pressure':
+                cloud = net.pop(k_)
     spec = base_spec({'N': case['N'], 'prange': [1e6, 1e-1], 'path': 'old'},
-                     ['abs', ['clouds', 1e2], ['flat', {'flat_mix_ratio': 1e-31}],
-                      ['lee', {'lee_mie_mix_ratio': 1e-12, 'lee_mie_radius': 0.05, 'lee_mie_q': 40}]])
+                     ['abs', ['clouds', cloud], ['flat', flat], ['lee', lee]])
     spec['T'] = ['iso', 1000.0]
     return fx.build_model(spec)
 
@@ -256,7 +271,10 @@ def _haze_sigma(r, live, fresh, sig):
 
 def hist_fn(case):
     r = core.R(case)
-    rthist.run_history(r, case['hist'], lambda: hist_build(case), 'clouds-hazes', extra_eval=_haze_sigma, as_numpy=bool(case.get('np')), entry=case.get('entry', 'model'))
+    def build_with(net):
+        m_ = hist_build(case, net)
+        return m_, net
+    rthist.run_history(r, case['hist'], lambda: hist_build(case), 'clouds-hazes', extra_eval=_haze_sigma, build_with=build_with, as_numpy=bool(case.get('np')), entry=case.get('entry', 'model'))
     return r
 
 
@@ -331,6 +349,8 @@ def explore(ctx):
     else:
         hs = rthist.histories(HIST_ALPHABET, 2, HIST_REDUCED, 3)
     hist_cases = [{'N': n, 'hist': h} for n in ((5, 3) if thorough else (5,)) for h in hs]
+    hist_cases += [{'N': 5, 'hist': h, 'inv': True} for h in hs
+                   if len(h) <= (3 if thorough else 2) and all(o[0].startswith(('flat_', 'lee_mie_')) for o in h)]
     # every single update once more with the value handed over as a numpy float64 scalar
     hist_cases += [dict(c_, np=True) for c_ in hist_cases if len(c_['hist']) == 1]
     # ... and with the first evaluation after the update going through model_full_contrib / model_contrib
